@@ -18,6 +18,16 @@ from .httpsim import ServerConn, make_app_server
 _quiet_done = False
 
 
+def with_kind(sig_fn, first_random_id):
+    """One TLC validation for enumerated and random traces together (fewer JVM starts): the violation
+    signature still says which part a trace came from (ids >= first_random_id are the seeded random ones)."""
+    def f(t, bad, l):
+        sig = sig_fn(t, bad, l)
+        sig["kind"] = "c2s" if t["id"] >= first_random_id else "s2c"
+        return sig
+    return f
+
+
 class phase:
     """with phase(ctx, name): ... -> wall seconds of the block recorded in evidence coverage.phases_s"""
 
